@@ -240,6 +240,106 @@ def gen_needed(rng):
     return sc.text()
 
 
+
+def gen_two_pools(rng):
+    """SEARCH STAGE ONLY (no theorem: MT/WorkMT.v models one pool): two pools of one owner; items go to either pool from the
+    set-up, from completions, from owner timers (also beyond the 10 s idle timeout, when every thread of a pool has
+    exited) and as continuations from work functions of EITHER pool (a worker of pool 0 submitting to pool 1, whose
+    threads may not exist yet or any more).  Every item is submitted at most once, so the log check is simple."""
+    m0, m1 = rng.choice([1, 2, 2, 3]), rng.choice([1, 2, 2, 3])
+    sc = Scen(rng, m0)
+    sc.setup.append("wc1=%d" % m1)
+    roots = []
+    for _ in range(rng.randint(1, 3)):
+        i = sc.item()
+        roots.append(i)
+        sc.setup.append("ws%d.%d" % (rng.choice([0, 0, 1]), i))
+    frontier = list(roots)
+    for _ in range(rng.randint(1, 5)):
+        if not frontier:
+            break
+        a = rng.choice(frontier)
+        b = sc.item()
+        if b is None:
+            break
+        how = rng.random()
+        if how < 0.6:
+            acts = ["wS0.%d.%d" % (rng.choice([0, 1, 1]), b)]
+            if rng.random() < 0.4:
+                acts = ["y"] * rng.randint(1, 2) + acts
+            if rng.random() < 0.5:
+                acts = acts + ["y"] * rng.randint(1, 3)
+            sc.add(("w", a), acts)
+        elif how < 0.8:
+            sc.add(("c", a), ["ws%d.%d" % (rng.choice([0, 1]), b)])
+        else:
+            if not sc.timer(rng.choice([0, 1, 5 * S, 10 * S, 10 * S + 1, 15 * S, 25 * S]), ["ws%d.%d" % (rng.choice([0, 1]), b)]):
+                continue
+        frontier.append(b)
+        if rng.random() < 0.3:
+            frontier.remove(a)
+    sc.m = 160
+    sc.sched = schedule(rng, m0 + m1 + 1, rng.choice([0, 40, 120, 300]), rng.choice(STYLES))
+    return "2POOL " + sc.text()
+
+
+def two_pool_log_check(case, log):
+    """None, or why the log of a two-pool scenario violates C12: every executed submission is followed by exactly one work
+    function in a pool thread (not the owner, thread 0), then exactly one completion in the owner; never more work
+    functions of one pool at once than its max_threads; the run ends quiescent with nothing outstanding"""
+    if log is None:
+        return "no log"
+    maxthr = {int(a): int(b) for a, b in re.findall(r"wc(\d+)=(\d+)", case)}
+    pool_of, sub, started, ended, done = {}, {}, {}, {}, {}
+    running = {}
+    segs = log.split(" | ")
+    for seg in segs:
+        m = re.match(r"(\d+):(.*)$", seg)
+        if not m:
+            continue
+        thr, ev = int(m.group(1)), m.group(2)
+        mm = re.match(r"a ws(\d+)\.(\d+)$", ev) or re.match(r"a wS\d+\.(\d+)\.(\d+)$", ev)
+        if mm:
+            i = int(mm.group(2))
+            sub[i] = sub.get(i, 0) + 1
+            pool_of[i] = int(mm.group(1))
+            continue
+        mm = re.match(r"(Cw|Xw|Cc)\d+\.(\d+)$", ev)
+        if not mm:
+            continue
+        k, i = mm.group(1), int(mm.group(2))
+        if i not in sub:
+            return "item %d: %s without a submission" % (i, k)
+        pl = pool_of[i]
+        if k == "Cw":
+            if thr == 0:
+                return "work function of item %d ran in the owner thread" % i
+            started[i] = started.get(i, 0) + 1
+            if started[i] > sub[i]:
+                return "work function of item %d ran %d times for %d submission(s)" % (i, started[i], sub[i])
+            running[pl] = running.get(pl, 0) + 1
+            if running[pl] > maxthr.get(pl, 0):
+                return "pool %d: %d work functions at once, max_threads = %d" % (pl, running[pl], maxthr.get(pl, 0))
+        elif k == "Xw":
+            ended[i] = ended.get(i, 0) + 1
+            running[pl] = running.get(pl, 0) - 1
+        else:
+            if thr != 0:
+                return "completion of item %d ran in thread %d, not in the owner" % (i, thr)
+            done[i] = done.get(i, 0) + 1
+            if done[i] > ended.get(i, 0):
+                return "completion of item %d before / without its work function having returned" % i
+    last = segs[-1] if segs else ""
+    if "LIMIT" in last:
+        return None                                     # wait budget of the harness used up: nothing to conclude
+    if "CRASH" in log or "FATAL" in log:
+        return "the library crashed / aborted: " + last[:200]
+    for i, n in sorted(sub.items()):
+        if started.get(i, 0) != n or done.get(i, 0) != n:
+            return ("item %d (pool %d) was submitted %d time(s) but its work function ran %d time(s) and its completion %d time(s) "
+                    "when the process went quiescent" % (i, pool_of[i], n, started.get(i, 0), done.get(i, 0)))
+    return None
+
 def gen_idle_race(rng):
     """kick vs idle timer: the pool goes idle at t0, its idle timers expire at t0 + 10 s; a timer of the owner
     expiring at the same virtual instant submits / puts"""
@@ -520,7 +620,7 @@ class _WorkCheck(MTCheck):
         "C13 = hooks paired per thread, finish only with paired hooks, join after finish, MainEnd only with everything joined and "
         "completed, no QUIESCENT after put, D only after MainEnd; theorems C12_monitor_accepts / C13_hooks_paired: every sequence "
         "accepted by the model passes them",
-        "one pool per scenario, owner loop + pool threads + helper threads created by the owner; virtual time is not in the model: the "
+        "one pool per scenario in the model (C12 adds an implementation-only search stage with two pools of one owner, see below), owner loop + pool threads + helper threads created by the owner; virtual time is not in the model: the "
         "idle timer may fire whenever the worker is on the idle list (covers every expiry time)",
         "baton scheduler mt.c / virtual kernel vk.c as for C08: sequentially consistent interleavings, switches at the yield points only",
     ]
@@ -680,6 +780,56 @@ class C12(_WorkCheck):
     def nontrivial(self, case, log):
         f = log_features(log)
         return bool(f["switch_in_cs"] or f["workers"] >= 2 or f["idle_exit"] or f["cont"] or f["self_kick"] or f["needed"])
+
+    # ---- search stage beyond the model: two pools of one owner (implementation only, judged by two_pool_log_check) ----
+    def cases(self, ctx):
+        cases = _WorkCheck.cases(self, ctx)
+        rng = vlib.rng_for(ctx.seed, "C12-two-pools")
+        self.n_two = 60 if ctx.tier == "quick" else 1500
+        cases += ["2POOL Bet;M60;Z0101210;L0:wc0=2 wc1=2 ws0.2;H0w2:wS0.1.3",
+                  "2POOL Bet;M60;L0:wc0=1 wc1=1 ws0.2 tr0+25000000000;H0t0:ws0.5;H0w5:y wS0.1.3 y"]
+        cases += [gen_two_pools(rng) for _ in range(self.n_two)]
+        return cases
+
+    def correspond(self, ctx, cases):
+        import runner
+        one = [i for i, c in enumerate(cases) if not c.startswith("2POOL ")]
+        two = [i for i, c in enumerate(cases) if c.startswith("2POOL ")]
+        n = len(cases)
+        st = {"n": n, "div": [], "crashes": [], "monfail": [], "nontrivial": 0, "mres": [("", None)] * n,
+              "ires": [("", None)] * n, "mon": ["OK"] * n}
+        if one:
+            s0 = _WorkCheck.correspond(self, ctx, [cases[i] for i in one])
+            for key in ("div", "crashes", "monfail"):
+                st[key] += [(one[j], why) for j, why in s0[key]]
+            for j, i in enumerate(one):
+                st["mres"][i] = s0["mres"][j]
+                st["ires"][i] = s0["ires"][j]
+                if s0["mon"] is not None:
+                    st["mon"][i] = s0["mon"][j]
+            st["nontrivial"] += s0["nontrivial"]
+        if two:
+            ires = runner.run_cases_sharded(self.impl_cmd(ctx), [cases[i][6:] for i in two], timeout=self.timeout(ctx),
+                                            env=dict(runner.ASAN_ENV))
+            for i, (io, ierr) in zip(two, ires):
+                st["ires"][i] = (io, ierr)
+                st["mres"][i] = ("(two pools: outside the one-pool model; the implementation log is judged by two_pool_log_check)", None)
+                if ierr is not None:
+                    st["crashes"].append((i, ierr))
+                    continue
+                why = two_pool_log_check(cases[i], io)
+                if why:
+                    st["monfail"].append((i, "two-pool search stage: " + why))
+                elif io and " wS" in io:
+                    st["nontrivial"] += 1
+        for key in ("div", "crashes", "monfail"):
+            st[key].sort(key=lambda x: x[0])
+        return st
+
+    def distribution(self, cases):
+        d = _WorkCheck.distribution(self, [c for c in cases if not c.startswith("2POOL ")])
+        d["two_pool_search_cases_implementation_only"] = sum(1 for c in cases if c.startswith("2POOL "))
+        return d
 
 
 class C13(_WorkCheck):
